@@ -35,9 +35,11 @@ def region_is(eng, st, sl, base, start, ln):
     return isinstance(sl, VSlice) and sl.base == base and eng.ent(st, c_eq(sl.start, start)) and eng.ent(st, c_eq(sl.len, ln))
 
 
-def check_reader(chk, fx, config):
+def check_reader(chk, fx, config, only=None, nonzero=()):
     ms = impl_methods(fx, "::SliceReader", "::Reader")
     chk.require_anchor(len(ms) >= 9, "SliceReader implements the 9 Reader methods (found %d) [%s]" % (len(ms), config))
+    if only is not None:
+        ms = {k: v for k, v in ms.items() if k in only}
     O = ("origin", "O")
     widths = {"read_u8_unchecked": 1, "read_u16_be_unchecked": 2, "read_u32_be_unchecked": 4, "read_u64_be_unchecked": 8}
     for item, f in sorted(ms.items()):
@@ -53,10 +55,14 @@ def check_reader(chk, fx, config):
             k = kv.lin
             st.cons.append(c_le(k, n))                       # requires k <= L
             args.append(kv)
+            if item in nonzero:
+                st.cons.append(c_le(Lin.const(1), k))        # the borrowing proof never passes 0
         elif item == "bytes":
             kv = eng.named_int(eng.usize_ty(), "k")          # total: no requires
             k = kv.lin
             args.append(kv)
+            if item in nonzero:
+                st.cons.append(c_le(Lin.const(1), k))
         rets = eng.analyse(f["key"], args=args, state=st, name="SliceReader::%s[%s]" % (item, config))
         record_engine(chk, eng, "SliceReader::%s [%s]: %d return paths" % (item, config, len(rets)))
         chk.add_engine_obligs(eng, DECODE_KINDS, "C18 SliceReader::%s under its contract precondition" % item)
@@ -124,9 +130,11 @@ def writer_state(eng, f):
     return st, VRef(("obj", "self"), (), True), W, cell
 
 
-def check_writer(chk, fx, config):
+def check_writer(chk, fx, config, only=None, nonzero=()):
     ms = impl_methods(fx, "::VecWriter", "::Writer")
     chk.require_anchor(len(ms) >= 8, "VecWriter implements the 8 Writer methods (found %d) [%s]" % (len(ms), config))
+    if only is not None:
+        ms = {k: v for k, v in ms.items() if k in only}
     wid = {"write_u8": 1, "write_u16_be": 2, "write_u32_be": 4, "write_u64_be": 8}
     for item, f in sorted(ms.items()):
         eng = new_engine(chk, fx, inline_rw_impls=True)
@@ -139,6 +147,8 @@ def check_writer(chk, fx, config):
         elif item in ("write_bytes", "write_bytes_at"):
             b = VSlice(("origin", "bytes"), Lin.const(0), eng.len_sym("len(bytes)"), elem=eng.u8_ty())
             args.append(b)
+            if item in nonzero:
+                st.cons.append(c_le(Lin.const(1), b.len))
             if item == "write_bytes_at":
                 off = eng.named_int(eng.usize_ty(), "offset")
                 args.append(off)
@@ -208,6 +218,20 @@ def run_config(chk, config):
     fx = chk.facts(config)
     check_reader(chk, fx, config)
     check_writer(chk, fx, config)
+
+
+def discharge(chk, config, used):
+    """contract discharge for another property's proof: that proof applied the Reader / Writer contract tables at its
+    call sites; here the only implementations (SliceReader, VecWriter) are shown to meet the contract for exactly the
+    methods it used, so a defect in one of those methods is reported under every property whose proof relied on it."""
+    fx = chk.facts(config)
+    r = set(item for tr, item in used if tr == "Reader")
+    w = set(item for tr, item in used if tr == "Writer")
+    nz = set(item for (tr, item), zero in used.items() if not zero)
+    if r:
+        check_reader(chk, fx, config, only=r, nonzero=nz)
+    if w:
+        check_writer(chk, fx, config, only=w, nonzero=nz)
 
 
 def run(chk):
